@@ -11,7 +11,7 @@ import (
 func init() {
 	register(&propDef{
 		id: "C15", level: "other", perCfg: true,
-		explain: "Necessary structural conditions of C15, decided for all paths of each serving function (found by role and analysed in its inlined view, DESIGN 9.2: the refresh may be written in the loop or in a helper; a listener without a SetDeadline method - none of those this package creates - is assumed away on the `ok == false` edge of the interface test). I1 re-arming: the listener deadline is refreshed (SetDeadline(time.Now().Add(timeout)) on the Service's listener) on every path to Accept that has seen timeout != 0, never on paths with timeout == 0, a failing refresh ends serving with that error, and nothing else in the package sets a listener deadline. I2 decision: the dedicated timeout error is returned only on the accept-timeout edge with the connection counter (read under the mutex) known to be 0; with a non-zero counter the loop goes back to Accept (and thereby re-arms, by I1) without returning. I3 release: every exit of a serving function runs the deferred reset (C14.L1 is re-evaluated here), and the reset closes the listener it drops on every path where one is set - so the endpoint is released on a timeout exit exactly as on shutdown. The counter the decision reads is maintained by the accounting rules C14.L3 (exactly one increment per accepted connection, exactly one decrement per handler exit), which are re-evaluated here because a miscount breaks 'then always'. I2 also: after a failed accept the loop accepts again only after the error was tested for being a timeout. I5 (= C14.L7) an idle stop releases everything a shutdown releases.",
+		explain: "Necessary structural conditions of C15, decided for all paths of each serving function (found by role and analysed in its inlined view, DESIGN 9.2: the refresh may be written in the loop or in a helper; a listener without a SetDeadline method - none of those this package creates - is assumed away on the `ok == false` edge of the interface test). I1 re-arming: the listener deadline is refreshed (SetDeadline(time.Now().Add(timeout)) on the Service's listener) on every path to Accept that has seen timeout != 0, never on paths with timeout == 0, a failing refresh ends serving with that error, and nothing else in the package sets a listener deadline. I2 decision: the dedicated timeout error is returned only on the accept-timeout edge with the connection counter (read under the mutex) known to be 0; with a non-zero counter the loop goes back to Accept (and thereby re-arms, by I1) without returning. I3 release: every exit of a serving function runs the deferred reset (C14.L1 is re-evaluated here), and the reset closes the listener it drops on every path where one is set - so the endpoint is released on a timeout exit exactly as on shutdown. The counter the decision reads is maintained by the accounting rules C14.L3 (exactly one increment per accepted connection, exactly one decrement per handler exit), which are re-evaluated here because a miscount breaks 'then always'. I2 also: after a failed accept the loop accepts again only after the error was tested for being a timeout. I5 (= C14.L7) an idle stop releases everything a shutdown releases. I2 also: an accept error that is returned is not counted as idle. I4 the counter is written only by the accounting (+1 per accept, -1 per handler exit).",
 		notDec:  "Clocks and real expiry times; that a listener deadline makes Accept fail with a timeout error (net contract); 'at once' re-listen behaviour of the operating system.",
 		trusted: []string{"net.Listener deadlines: Accept fails with a net.Error whose Timeout() is true once the deadline passes", "closing a listener releases its address (and, with unlink-on-close, its socket file)"},
 		run:     runC15,
